@@ -16,6 +16,12 @@ import PromModel.Prelude.Line
   * `oooInsert`             = `OOOChunk.Insert`; `Series.insertOOO` = `memSeries.insert`
   * `initAppender`          = lazily created appender on an uninitialised head (`initTime`), including
                               the fact that `SetOptions` before the first append is dropped.
+  * overlapping appenders   = up to three appenders open on one head (`State.app/app1/app2`); each carries
+                              its own window snapshot `Appender.w` = (`minValidTime`, `headMaxt`,
+                              `oooTimeWindow`) taken by `Head.appender()`: at `Head.Appender()` on an
+                              initialised head, at the *first append* for an `initAppender` (the head as it is
+                              then, possibly initialised / moved by another appender meanwhile).  `Append*` and
+                              `Commit` read the snapshot and the live series, never the live head times.
 
   Repair switches (`repoFixedC02F2`, `repoFixedC02F3`): `false` = /repo as found (the model reproduces
   findings C02-F2 / C02-F3), `true` = /repo with `fixes/C02-F2.patch` / `fixes/C02-F3.patch` applied.  The
@@ -341,9 +347,18 @@ def Head.commit (h : Head) (a : Appender) : Head :=
 
 structure State where
   head : Head := {}
-  app : Option Appender := none
+  app : Option Appender := none      -- appender slot 0 (unprefixed ops)
   cfg : Bool := false
+  app1 : Option Appender := none     -- appender slot 1 (`@1 …` ops)
+  app2 : Option Appender := none     -- appender slot 2 (`@2 …` ops)
 deriving Inhabited
+
+/-- is any appender (lazy or live) open on the head -/
+def State.anyOpen (s : State) : Bool := s.app.isSome || s.app1.isSome || s.app2.isSome
+
+/-- exchange slot 0 with slot 1 / slot 2: a prefixed op is the plain op on the exchanged state -/
+def State.swap1 (s : State) : State := { s with app := s.app1, app1 := s.app }
+def State.swap2 (s : State) : State := { s with app := s.app2, app2 := s.app }
 
 /-- `Head.Appender / AppenderV2`. -/
 def Head.newAppender (h : Head) (v2 : Bool) : Appender :=
@@ -400,8 +415,8 @@ def parseSample? (k : String) (t v : String) : Option Sample := do
   | "fh" => do let i ← v.toNat?; pure ⟨t, .fh, i⟩
   | _ => none
 
-/-- one op, already tokenised -/
-def stepT (s : State) (tk : List String) : State × String :=
+/-- one op addressed to appender slot 0, already tokenised -/
+def stepT0 (s : State) (tk : List String) : State × String :=
   match tk with
   | ["cfg", w, cr, cap] =>
     match s.cfg, w.toInt?, cr.toInt?, cap.toNat? with
@@ -414,7 +429,7 @@ def stepT (s : State) (tk : List String) : State × String :=
     | ["trunc", m] =>
       match m.toInt? with
       | some m =>
-        if s.head.initialized ∨ s.app.isSome then (s, "skip")
+        if s.head.initialized ∨ s.anyOpen then (s, "skip")
         else ({ s with head := s.head.truncUninit m }, "ok")
       | none => (s, "bad-op")
     | ["win"] =>
@@ -451,6 +466,22 @@ def stepT (s : State) (tk : List String) : State × String :=
       | some _ => ({ s with app := none }, "ok")
     | ["q", n] => (s, (s.head.store.get n).renderQuery)
     | _ => (s, "bad-op")
+
+/-- the ops that may be addressed to another appender slot -/
+def slotOp (tk : List String) : Bool :=
+  match tk with
+  | op :: _ => op = "app" || op = "opt" || op = "f" || op = "h" || op = "fh" || op = "commit" || op = "rollback"
+  | [] => false
+
+/-- one op, already tokenised: `@1 …` / `@2 …` run the op on appender slot 1 / 2, everything else about
+    the head (series, head times) is shared. -/
+def stepT (s : State) (tk : List String) : State × String :=
+  match tk with
+  | "@1" :: rest =>
+    if slotOp rest then let r := stepT0 s.swap1 rest; (r.1.swap1, r.2) else (s, "bad-op")
+  | "@2" :: rest =>
+    if slotOp rest then let r := stepT0 s.swap2 rest; (r.1.swap2, r.2) else (s, "bad-op")
+  | _ => stepT0 s tk
 
 def step (s : State) (line : String) : State × String := stepT s (toks line)
 
